@@ -212,9 +212,13 @@ def partition_volume(volume: float, *, max_volume: Union[int, float]) -> List[fl
     if volume < max_volume:
         return [volume]
     isteps = math.ceil(volume / max_volume)
-    step_volume = math.ceil(volume / isteps)
+    step_volume: float = math.ceil(volume / isteps)
+    if step_volume > max_volume:
+        # integer-valued steps only fit when max_volume is (close to) an integer
+        step_volume = min(volume / isteps, max_volume)
     volumes: List[float] = [step_volume] * (isteps - 1)
-    volumes.append(volume - numpy.sum(volumes))
+    # the remainder can exceed max_volume by a rounding error when volume/isteps is not representable
+    volumes.append(min(volume - numpy.sum(volumes), max_volume))
     return volumes
 
 
